@@ -88,4 +88,85 @@ def consistent (d : AssemDesign) : Bool :=
   d.heights.length == d.blocks.length && d.xsTypes.length == d.blocks.length &&
   d.meshPoints.length == d.blocks.length
 
+
+/-! ### per-block lists of an assembly design -/
+
+/-- `AssemblyBlueprint._checkParamConsistency` + `_createBlock`: block `k` is built from the `k`-th entry of every
+per-block list; lists of unequal length are refused (`none` = ValueError). -/
+def pairBlocks (d : AssemDesign) : Option (List (String × Rat × String × Nat)) :=
+  if consistent d then
+    some (d.blocks.zip (d.heights.zip (d.xsTypes.zip d.meshPoints)))
+  else none
+
+/-! ### multiplicity learned from a pin lattice -/
+
+/-- `GridBlueprint.getLocators`: the grid positions whose specifier is one of the component's `latticeIDs`
+(both sides stringified), in grid order -/
+def positions (grid : List (Cell × String)) (ids : List String) : List Cell :=
+  (grid.filter (fun p => ids.contains p.2)).map (·.1)
+
+/-- the multiplicity rule of `BlockBlueprint.construct` for a component standing on `n` lattice positions:
+not in the grid (`n = 0`) → the declared value is left alone; a declared value other than 0, 1 or `n` raises
+(`none`); otherwise the multiplicity is the number of positions. Outer `none` = ValueError, inner = "not given". -/
+def learnMult (declared : Option Rat) (n : Nat) : Option (Option Rat) :=
+  if n = 0 then some declared
+  else match declared with
+    | none => some (some (n : Rat))
+    | some m =>
+      if m ≠ 0 ∧ m ≠ 1 ∧ m ≠ (n : Rat) then none
+      else if m = 0 ∨ m = 1 then some (some (n : Rat))
+      else some (some m)
+
+def multFromGrid (grid : List (Cell × String)) (ids : List String) (declared : Option Rat) : Option (Option Rat) :=
+  learnMult declared (positions grid ids).length
+
+/-! ### flags from names -/
+
+/-- multi-word phrases and aliases of `flags._CONVERSIONS`, in dictionary order: (phrase as words, flags) -/
+def conversions : List (List String × List String) :=
+  [(["GRID", "PLATE"], ["GRID_PLATE"]), (["GRID"], ["GRID_PLATE"]), (["INLET", "NOZZLE"], ["INLET_NOZZLE"]),
+   (["NOZZLE"], ["INLET_NOZZLE"]), (["LOAD", "PAD"], ["LOAD_PAD"]), (["HANDLING", "SOCKET"], ["HANDLING_SOCKET"]),
+   (["GUIDE", "TUBE"], ["GUIDE_TUBE"]), (["FISSION", "CHAMBER"], ["FISSION_CHAMBER"]), (["SOCKET"], ["HANDLING_SOCKET"]),
+   (["SHIELD", "BLOCK"], ["SHIELD_BLOCK"]), (["SHIELDBLOCK"], ["SHIELD_BLOCK"]), (["CORE", "BARREL"], ["CORE_BARREL"]),
+   (["INNERDUCT"], ["INNER", "DUCT"]), (["GAP1"], ["GAP", "A"]), (["GAP2"], ["GAP", "B"]), (["GAP3"], ["GAP", "C"]),
+   (["GAP4"], ["GAP", "D"]), (["GAP5"], ["GAP", "E"]), (["LINER1"], ["LINER", "A"]), (["LINER2"], ["LINER", "B"])]
+
+/-- remove every occurrence of the phrase (consecutive words); the flag says whether one was found -/
+def removePhrase (ph : List String) : List String → List String × Bool
+  | [] => ([], false)
+  | w :: ws =>
+    if !ph.isEmpty && ph.isPrefixOf (w :: ws) then
+      let r := removePhrase ph ((w :: ws).drop ph.length)
+      (r.1, true)
+    else
+      let r := removePhrase ph ws
+      (w :: r.1, r.2)
+termination_by l => l.length
+decreasing_by
+  all_goals simp_wf
+  · cases ph with
+    | nil => simp at *
+    | cons a as => simp; omega
+
+def stripDigits (s : String) : String := String.ofList (s.toList.filter (fun c => !c.isDigit))
+
+/-- the word loop of `__fromStringGeneral` with the error-ignoring update method: an exact flag name wins,
+otherwise digits are stripped and the rest must be a flag name, else the word is ignored -/
+def wordFlags (known : List String) (ws : List String) : List String :=
+  ws.filterMap (fun w =>
+    if known.contains w then some w
+    else
+      let t := stripDigits w
+      if t.isEmpty then none else if known.contains t then some t else none)
+
+/-- `Flags.fromStringIgnoreErrors(name)` as a list of flag names (a set; order of discovery).
+Domain: words are separated by blanks and consist of letters, digits and underscores. -/
+def flagsOfName (known : List String) (name : String) : List String :=
+  let ws0 := (name.toUpper.splitOn " ").filter (fun w => !w.isEmpty)
+  let step := fun (acc : List String × List String) (cv : List String × List String) =>
+    let r := removePhrase cv.1 acc.1
+    if r.2 then (r.1, acc.2 ++ cv.2) else acc
+  let r := conversions.foldl step (ws0, [])
+  (r.2 ++ wordFlags known r.1).eraseDups
+
 end ArmiVerif.Blueprint
